@@ -1099,6 +1099,73 @@ def selftest():
     return 1 if bad else 0
 
 
+# ----------------------------------------------------------------------------------------------
+# development tool: harmless refactorings of the source must still translate, and the equality theorems
+# must still hold for the regenerated text (`--refactorings [repo]`; rewrites and restores Gen/CsvPy.lean)
+# ----------------------------------------------------------------------------------------------
+REFACTORINGS = {
+    "rename": [("empty_field_value", "empty"), ("field_value", "fv"), ("flag_quotes_in_the_begining", "opened"), ("flag_expect_delimiter_or_quotes", "pending"),
+               ("fields_in_the_row", "result"), ("generated_csv_row", "acc"), ("CRLF", "eols")],
+    "swap-independent-assignments": [
+        ("    field_value = empty_field_value\n    fields_in_the_row = []\n    flag_quotes_in_the_begining = flag_expect_delimiter_or_quotes = False\n",
+         "    fields_in_the_row = []\n    flag_quotes_in_the_begining = flag_expect_delimiter_or_quotes = False\n    field_value = empty_field_value\n"),
+        ("            flag_quotes_in_the_begining = flag_expect_delimiter_or_quotes = False\n            field_value = empty_field_value\n",
+         "            field_value = empty_field_value\n            flag_quotes_in_the_begining = flag_expect_delimiter_or_quotes = False\n"),
+        ("        CRLF = '\\r\\n'\n        empty_field_value = ''\n        quote = '\"'\n", "        quote = '\"'\n        empty_field_value = ''\n        CRLF = '\\r\\n'\n")],
+    "split-chained-assignment": [
+        ("    flag_quotes_in_the_begining = flag_expect_delimiter_or_quotes = False\n\n", "    flag_quotes_in_the_begining = False\n    flag_expect_delimiter_or_quotes = False\n\n"),
+        ("            flag_quotes_in_the_begining = flag_expect_delimiter_or_quotes = False\n", "            flag_expect_delimiter_or_quotes = False\n            flag_quotes_in_the_begining = False\n")],
+    "elif-to-else-if": [("        elif flag_expect_delimiter_or_quotes:\n            raise ValueError(", "        else:\n          if flag_expect_delimiter_or_quotes:\n            raise ValueError(")],
+    "bool-style": [("flag_quotes_in_the_begining == False or flag_expect_delimiter_or_quotes == True", "not flag_quotes_in_the_begining or flag_expect_delimiter_or_quotes"),
+                   ("if len(field_value) == 0 and not flag_quotes_in_the_begining:", "if not field_value and not flag_quotes_in_the_begining:"),
+                   ("if flag_expect_delimiter_or_quotes == True:", "if flag_expect_delimiter_or_quotes:")],
+    "no-guard-before-replace": [("            if '\"' in field_value:\n                field_value = field_value.replace('\"', '\"\"')\n            field_value = '\"' + field_value + '\"'\n",
+                                 "            field_value = '\"' + field_value.replace('\"', '\"\"') + '\"'\n")],
+    "plus-instead-of-augmented": [("        generated_csv_row += field_value + delimiter\n", "        generated_csv_row = generated_csv_row + field_value + delimiter\n"),
+                                  ("        field_value += ch\n", "        field_value = field_value + ch\n")],
+    "local-for-the-stripped-line": [("    for offset, ch in enumerate(line.rstrip(CRLF)):\n", "    stripped = line.rstrip(CRLF)\n    for ch in stripped:\n"), (" in offset {offset} of", " of")],
+    "test-in-a-local": [("        if delimiter in field_value or field_value.startswith('\"'):\n", "        needs = field_value.startswith('\"') or delimiter in field_value\n        if needs:\n")],
+    "slice-minus-one": [("generated_csv_row[:-len(delimiter)]", "generated_csv_row[:-1]")],
+    "append-as-plus-equals": [("fields_in_the_row.append(process_field(field_value)) # Save the last field", "fields_in_the_row += [process_field(field_value)]")],
+}
+
+
+def refactorings(repo):
+    import subprocess
+
+    src = open(os.path.join(repo, SRC), encoding="utf-8").read()
+    base, _ = translate_source(src)
+    worst = 0
+    try:
+        for name, pairs in REFACTORINGS.items():
+            text = src
+            for a, b in pairs:
+                if a not in text:
+                    print("%-30s does not apply to this source (%r not found)" % (name, a[:40]))
+                    text = None
+                    break
+                text = text.replace(a, b)
+            if text is None:
+                continue
+            try:
+                lean, _ = translate_source(text)
+            except TranslateError as e:
+                print("%-30s TranslateError: %s" % (name, e))
+                worst = 1
+                continue
+            if lean == base:
+                print("%-30s identical Lean text" % name)
+                continue
+            write_if_changed(OUT, lean)
+            p = subprocess.run(["lake", "build", "N0Verif.Props.C13"], cwd=os.path.join(HERE, "lean"), stdout=subprocess.PIPE, stderr=subprocess.STDOUT, text=True)
+            errs = [l[:160] for l in p.stdout.split("\n") if l.startswith("error: N0Verif")]
+            print("%-30s text differs; equality theorems %s %s" % (name, "hold" if p.returncode == 0 else "FAIL", errs[:2]))
+            worst = worst or (1 if p.returncode else 0)
+    finally:
+        write_if_changed(OUT, base)
+    return worst
+
+
 if __name__ == "__main__":
     import sys
 
@@ -1106,6 +1173,8 @@ if __name__ == "__main__":
         sys.exit(selftest())
     args = [a for a in sys.argv[1:] if not a.startswith("--")]
     repo = args[0] if args else os.environ.get("VERIF_REPO", "/repo")
+    if "--refactorings" in sys.argv:
+        sys.exit(refactorings(repo))
     legend, changed, differs = regenerate(repo)
     if "--write-baseline" in sys.argv:
         os.makedirs(os.path.dirname(BASELINE), exist_ok=True)
